@@ -112,6 +112,11 @@ type FS struct {
 	// reported), like a write interrupted by ENOSPC/EIO; sector-granular like the tearing of the crash model.
 	FailPartial bool
 	mutations   int
+	// FailCreateSuffix/FailCreateNth: the n-th creation (since the fields were set) of a file whose name ends in the suffix
+	// fails once - a fault that names WHAT fails instead of the position of the call, for interleaved executions.
+	FailCreateSuffix string
+	FailCreateNth    int
+	createCount      int
 
 	Stats Stats
 }
@@ -252,6 +257,13 @@ func (f *FS) OpenFile(name string, flag int, perm os.FileMode) (fs.File, error) 
 		}
 		if !f.dirs[filepath.Dir(name)] {
 			return nil, notExist("open", name)
+		}
+		if f.FailCreateSuffix != "" && strings.HasSuffix(name, f.FailCreateSuffix) {
+			f.createCount++
+			if f.createCount == f.FailCreateNth {
+				f.mutations++
+				return nil, ErrInjected
+			}
 		}
 		if err := f.mutate(); err != nil {
 			return nil, err
